@@ -40,6 +40,7 @@ def restore_simulation(directory, tax_benefit_system, **kwargs):
     )
 
     entities_dump_dir = os.path.join(directory, "__entities__")
+    person_count = None
     for population in simulation.populations.values():
         if population.entity.is_person:
             continue
@@ -49,7 +50,8 @@ def restore_simulation(directory, tax_benefit_system, **kwargs):
         if not population.entity.is_person:
             continue
         _restore_entity(population, entities_dump_dir)
-        population.count = person_count
+        if person_count is not None:
+            population.count = person_count
 
     variables_to_restore = (
         variable for variable in os.listdir(directory) if variable != "__entities__"
